@@ -1,5 +1,6 @@
 import re
 import string
+import unicodedata
 from abc import ABC, abstractmethod
 
 
@@ -18,4 +19,8 @@ class BuiltinNameSanitizer(NameSanitizer):
             return ""
 
         first_letter = name[0] if name[0] in string.ascii_letters else "_"
-        return first_letter + self._BAD_CHARS.sub("", name[1:].translate(self._TRANSLATE_MAP))
+        tail = self._BAD_CHARS.sub("", name[1:].translate(self._TRANSLATE_MAP))
+        # `\w` also matches characters that are not allowed in identifiers (e.g. "\u00b2"),
+        # and the compiler reads identifiers in NFKC form
+        tail = "".join(char for char in unicodedata.normalize("NFKC", tail) if ("_" + char).isidentifier())
+        return first_letter + tail
